@@ -1,4 +1,4 @@
-import PromModel.Suites.LimitRatioSuite
+import PromProofs.LimitRatioLemmas
 /-
   C34 — Complementary `limit_ratio` selections partition the input.
 
@@ -90,27 +90,6 @@ def ofBits (bits : Nat) : Rat := match decode bits with | .fin v => v | _ => 0
 def partition_f64_full : Prop :=
   ∀ r o : Rat, IsF64 r → IsF64 o → 0 ≤ r → r ≤ 1 → 0 ≤ o → o < 1 →
     (selF r o = true ↔ ¬ selF (complF r) o = true)
-
-theorem div_nonneg_of_pos (a b : Rat) (ha : 0 ≤ a) (hb : 0 < b) : 0 ≤ a / b := by
-  have := Rat.div_lt_iff (a := a) (c := 0) hb
-  grind
-
-theorem rneMag_nonneg (a : Rat) : 0 ≤ rneMag a := by
-  unfold rneMag
-  apply div_nonneg_of_pos _ _ Rat.natCast_nonneg
-  have : ((0 : Nat) : Rat) < ((U : Nat) : Rat) := Rat.natCast_lt_natCast.mpr (Nat.two_pow_pos _)
-  exact this
-
-/-- Rounding preserves the sign (weakly). -/
-theorem rne53_nonpos (x : Rat) (hx : x ≤ 0) : rne53 x ≤ 0 := by
-  unfold rne53
-  split
-  · have := rneMag_nonneg (-x); grind
-  · have : x = 0 := by grind
-    subst this
-    decide +kernel
-
-theorem rne53_one : rne53 1 = 1 := by decide +kernel
 
 /-- binary64 partition wherever the complement's boundary `1 ⊕ (r ⊖ 1)` is `r` itself.
     (Every `r ∈ [1/2, 1]` — `r ⊖ 1` is exact by Sterbenz — and every multiple of 2^-53 in (0,1).) -/
